@@ -54,12 +54,12 @@ def evaluate(t, env: dict[str, int] | None = None) -> int:
         elif op == "|":
             r = a | b
         elif op in ("<<", ">>"):
-            if b < 0 or b > 64:
-                raise Undefined("shift count outside 0..64")
+            if b < 0 or b > 8192:
+                raise Undefined("shift count outside 0..8192")
             r = a << b if op == "<<" else a >> b
         else:
             raise ValueError(op)
-        if abs(r) >= 1 << 200:
+        if abs(r) >= 1 << 9000:
             raise Undefined("magnitude")
         return r
     raise ValueError(k)
